@@ -478,6 +478,37 @@ def gen_case(rng, ver=None):
     return {'v': ver, 'op': op, 'a': a, 'b': b, 'p': p, 'style': style}
 
 
+def gen_round_boundary(rng):
+    """phase 5: fn:round / fn:round-half-to-even on xs:integer / xs:decimal operands around the 28/29-digit boundary of
+    Python's default decimal context and the 2000-digit boundary of the local context, with zero / negative precisions
+    and precisions up to the operand's scale (driver flag `safe`: theorem roundSafe_excludes_F06p, impl must equal the
+    exact spec) and just beyond it."""
+    ver = rng.choice(['20', '30', '31', '31'])
+    op = 'rhe' if (ver == '20' or rng.random() < 0.4) else 'round'
+    nd = rng.choice([27, 28, 28, 29, 29, 29, 30, 31, 40, 1998, 1999, 2000, 2000, 2001])
+    tail = rng.choice(['5', '50', '500', '25', '35', '49', '51', '85', '95', '995', '05', '15', '4999', '5001'])
+    kind = rng.random()
+    if kind < 0.25:
+        digits = '9' * (nd - len(tail)) + tail                      # carries into one more digit
+    elif kind < 0.35:
+        digits = '1' + '0' * (nd - 1 - len(tail)) + tail
+    else:
+        digits = str(rng.randint(1, 9)) + ''.join(rng.choice('0123456789') for _ in range(nd - 1 - len(tail))) + tail
+    n = int(digits) * rng.choice([1, 1, -1])
+    if rng.random() < 0.45:
+        a = ('i', n)
+        p = rng.choice([None, 0, -1, -1, -2, -2, -3, -len(tail), -(nd - 1), -nd, -(nd + 1), 1, 2])
+    else:
+        sc = rng.choice([0, 1, 1, 2, 3, len(tail), nd - 1, nd + 2])
+        a = ('d', n, sc)
+        p = rng.choice([None, 0, -1, -2, sc, sc - 1, sc - 2, sc - len(tail), sc + 1, sc + 2, sc - nd, sc - nd - 1])
+        if op == 'rhe' and nd > 300 and nd + ((p or 0) - sc) > 1999:
+            # inside F06p the round-half-to-even fallback goes through float: Decimal('Infinity') beyond the double
+            # range (documented limitation of the value model) -- stay on the exact side for round-half-to-even
+            p = sc - (nd - 1999) - rng.choice([0, 1, 2])
+    return C(ver, op, a, p=p)
+
+
 def C(v, op, a, b=None, p=None, style=0):
     return {'v': v, 'op': op, 'a': a, 'b': b, 'p': p, 'style': style}
 
@@ -485,6 +516,14 @@ def C(v, op, a, b=None, p=None, style=0):
 D = lambda x: dbl_val('D', x)   # noqa
 F = lambda x: dbl_val('F', x)   # noqa
 CORPUS = [
+    # phase 5: 28/29-digit and 2000-digit boundaries, negative precision (flag safe)
+    C('31', 'round', ('d', 123456789012345678901234567885, 1), p=0), C('31', 'round', ('d', -123456789012345678901234567885, 1)),
+    C('20', 'rhe', ('d', 123456789012345678901234567885, 1), p=0), C('31', 'round', ('i', 123456789012345678901234567850), p=-2),
+    C('30', 'round', ('i', -123456789012345678901234567850), p=-2), C('31', 'rhe', ('i', 123456789012345678901234567850), p=-2),
+    C('31', 'round', ('d', 99999999999999999999999999995, 1), p=-1), C('31', 'round', ('d', 10**2000 + 25, 1), p=0),
+    C('31', 'round', ('d', -(10**2000 + 25), 1), p=0), C('31', 'rhe', ('d', 10**2000 + 35, 1), p=0),
+    C('31', 'round', ('d', 10**2000 - 5, 1), p=0), C('31', 'round', ('i', 10**1999 + 25), p=-1),
+    C('31', 'round', ('d', 10**1999, 0), p=0), C('31', 'round', ('d', 10**1999, 0), p=1),
     C('20', 'idiv', ('i', -6), ('i', 2), style=1),                  # F06a: was -2
     C('31', 'idiv', ('i', 6), ('i', -2)),
     C('20', 'idiv', ('i', -7), ('i', 2)),
@@ -561,6 +600,11 @@ def judge(run: Run, cj, site: str, impl: str, a: dict, stats: bool, what: str = 
     model, spec, spec_i, flags = a['model'], a['spec'], a['specI'], a['flags']
     st = run.stats
     tags = [f for f in flags if f in FINDING_IDS]
+    if 'safe' in flags:
+        # theorem roundSafe_excludes_F06p: inside roundSafe the fallback cannot happen, no tag is accepted
+        if 'F06p' in flags:
+            run.disagree(Disagreement(cj, impl, model, spec, what='safe-and-F06p', site=site))
+        tags = []
     if 'F06c' in tags and 'fhyp' in flags and spec_i is not None and impl != spec_i and impl != spec \
             and 'F06p' not in tags:
         # F06c covers the *rounding* of xs:float only: the result must still be the F&O result computed
@@ -825,7 +869,7 @@ def compare_reuse(run: Run, groups: list) -> None:
             errs = [x for x in items if x.startswith('ERR')]
             return errs[0] if errs else 'SEQ[' + ','.join(items) + ']'
         flags = sorted({f for a in ans for f in a['flags']})
-        exp = {'model': seq('model'), 'spec': seq('spec'), 'specI': None, 'flags': [f for f in flags if f != 'fhyp'], 'raw': ''}
+        exp = {'model': seq('model'), 'spec': seq('spec'), 'specI': None, 'flags': [f for f in flags if f not in ('fhyp', 'safe')], 'raw': ''}
         before = len(run.disagreements)
         judge(run, gj, site, impl, exp, True, what='call-site-reuse')
         if len(run.disagreements) > before and impl.startswith('SEQ[') and exp['model'].startswith('SEQ['):
@@ -898,13 +942,15 @@ def correspond(run: Run) -> None:
         grid = rng.sample(grid, min(len(grid), 4000))
     cases += grid
     cases += [gen_case(rng) for _ in range(n)]
+    cases += [gen_round_boundary(rng) for _ in range(run.scale(700, 12000))]
     run.stats.rule = (
         'one evaluation = one XPath expression `A op B` / `f(A[, precision])` through elementpath.select(None, expr, '
         'parser, item=1); A, B drawn from xs:integer {0,±1..±7, small, 10^k±1, 2^63±1, up to 10^30}, xs:decimal '
         '(coefficient x scale 0..6, ties ..5, up to 29 digits), xs:double (±0, INF, NaN, halves, 2^53 region, subnormal, '
         'huge, random mantissas), xs:float (binary32 values and a few non-binary32 ones), related pairs a = k*b + r with '
         'all sign combinations; operators + - * div idiv mod, unary - +, abs floor ceiling round round-half-to-even with '
-        'precision -3..3 and a few large ones; parsers 1.0 (doubles via number()), 2.0, 3.0, 3.1; constructor and literal '
+        'precision -3..3 and a few large ones; round / round-half-to-even on 27..31-digit and 1998..2001-digit integer / decimal '
+        'coefficients (ties, all-nines carries) with zero / negative precisions and precisions around the scale (flag safe); parsers 1.0 (doubles via number()), 2.0, 3.0, 3.1; constructor and literal '
         'syntax; plus the seed corpus and (a sample of) the exhaustive small grid. distinct = distinct request lines')
     for i in range(0, len(cases), 5000):
         compare(run, cases[i:i + 5000])
@@ -1126,7 +1172,7 @@ def body(run: Run) -> int:
         for d in run.disagreements:
             print(json.dumps(d.to_json(), default=str))
         return run.finish('proof')
-    run.prove(['EPV.Props.C06'], ['EPV.Spec.FOArith', 'EPV.Model.Arith'])
+    run.prove(['EPV.Props.C06', 'EPV.Props.C06Round'], ['EPV.Spec.FOArith', 'EPV.Model.Arith', 'EPV.Model.ArithRoundSafe'])
     try:
         check_empty(run)
         check_histories(run)
